@@ -87,6 +87,47 @@ def selftest(prop, ctx):
                 alarms.append((m['id'], new[:2]))
         finally:
             R.cleanup(d)
+    # independently seeded changes for this property (must be caught) and refactorings that once raised a false alarm here (must be silent)
+    import json as _json
+    import glob as _glob
+    seeded_caught = seeded_total = 0
+    for f in sorted(_glob.glob(os.path.join(VERIF, 'seeded', prop + '*', 'patch.diff'))):
+        d = R.make_scratch()
+        try:
+            r = subprocess.run(['git', 'apply', '--unsafe-paths', '--directory', d, f], cwd='/', stdout=subprocess.PIPE, stderr=subprocess.STDOUT)
+            if r.returncode != 0:
+                continue            # the tree under analysis has diverged from the tree the patch was written for
+            seeded_total += 1
+            code, keys = R.run_checks(d, [prop])[prop]
+            if code == 1:
+                seeded_caught += 1
+            else:
+                missed.append('seeded/' + os.path.basename(os.path.dirname(f)))
+        finally:
+            R.cleanup(d)
+    reg = {}
+    try:
+        reg = _json.load(open(os.path.join(VERIF, 'selftest', 'regression_benign.json')))
+    except Exception:
+        pass
+    for name in reg.get(prop, []):
+        f = os.path.join(VERIF, 'benign_diffs', name)
+        d = R.make_scratch()
+        try:
+            r = subprocess.run(['git', 'apply', '--unsafe-paths', '--directory', d, f], cwd='/', stdout=subprocess.PIPE, stderr=subprocess.STDOUT)
+            if r.returncode != 0:
+                continue
+            btotal += 1
+            code, keys = R.run_checks(d, [prop])[prop]
+            base = {v['key'] for v in ctx.violations}
+            new = [k for k in keys if not any(k.split(' | ')[-1] in b for b in base)]
+            if code == 0 or not new:
+                silent += 1
+            else:
+                alarms.append((name, new[:2]))
+        finally:
+            R.cleanup(d)
+    ctx.extra.setdefault('thorough', {})['seeded'] = {'caught': seeded_caught, 'total': seeded_total}
     ctx.extra.setdefault('thorough', {})['selftest'] = {'mutants_fired': fired, 'mutants_total': total, 'mutants_skipped': skipped, 'missed': missed,
                                                         'benign_silent': silent, 'benign_total': btotal, 'false_alarms': alarms}
     for mid in missed:
